@@ -5,3 +5,5 @@ package bloomsearch
 func verifPoint(name string, a, b int64, ref any) {}
 
 func verifFS(op, path string) error { return nil }
+
+func verifQ(name string, r *Results, pointer []byte, a, b int) {}
